@@ -11,16 +11,19 @@ import Martian.SchedTables
 import Proofs.SchedTables
 import Gen.Facts
 
+/-! ### definitional unfoldings (documentation of the model, not guarantees)
+The theorems whose docstring starts with DEFINITIONAL UNFOLDING (launch_chunk_after_split, launch_join_after_chunks, complete_only_by_jobend_or_mrp) restate a guard
+or a definition of the model; they stay where later theorems use them and are not cited as guarantees. -/
 namespace Props.C02
 open Martian.Sched
 
 /-- Regenerated obligation: the sentinel precedence found in the current
 `Metadata._getStateNoLock` is the one the model's `metaState` implements. -/
-theorem precedence_matches_source : Gen.metaStatePrecedence = precedenceNames := by decide
+theorem precedence_matches_source : Gen.metaStatePrecedence_extracted = true ∧ Gen.metaStatePrecedence = precedenceNames := by decide
 
 /-- Regenerated obligation: `Fork.getState` consults own metadata, join, chunks,
 split in this order (the order `forkStateOf` implements). -/
-theorem fork_state_order_matches_source : Gen.forkStateOrder = forkStateOrderNames := by decide
+theorem fork_state_order_matches_source : Gen.forkStateOrder_extracted = true ∧ Gen.forkStateOrder = forkStateOrderNames := by decide
 
 /-! ### the transition structure of the Go state functions, regenerated
 
@@ -29,18 +32,20 @@ run (extract/sched_steps.go: which condition is tested in which order and what e
 does) with the model's table; the theorem next to it proves that the model's function IS
 the interpretation of that table.  A re-ordered test, a changed condition or a changed
 return value in `Fork.getState` / `Node.getState` / `Fork.stepStage` breaks the first
-kind at once. -/
+kind at once.  Each obligation also demands `Gen.<fact>_extracted = true`: if the extractor no
+longer recognises the Go pattern (and would fall back to the committed default) the obligation
+is BROKEN, not silently true. -/
 
 /-- `Fork.getState`: its statements (own metadata: return if failed/complete/disabled;
 join metadata: failed or `join_`+state; chunk loop; split metadata: failed or
 `split_`+state; `Ready`), in this order -/
-theorem fork_getState_steps_match_source : Gen.forkGetStateSteps = forkStepsNames := by decide
+theorem fork_getState_steps_match_source : Gen.forkGetStateSteps_extracted = true ∧ Gen.forkGetStateSteps = forkStepsNames := by decide
 
 /-- … the `switch` over a chunk's state inside the chunk loop … -/
-theorem fork_chunk_switch_matches_source : Gen.forkChunkSwitch = chunkSwitchNames := by decide
+theorem fork_chunk_switch_matches_source : Gen.forkChunkSwitch_extracted = true ∧ Gen.forkChunkSwitch = chunkSwitchNames := by decide
 
 /-- … and the flags tested after the loop (`complete` before `running`). -/
-theorem fork_chunk_after_matches_source : Gen.forkChunkAfter = chunkAfterNames := by decide
+theorem fork_chunk_after_matches_source : Gen.forkChunkAfter_extracted = true ∧ Gen.forkChunkAfter = chunkAfterNames := by decide
 
 /-- the model's `forkStateOf` (= `Fork.getState`) is the interpretation of these tables:
 `runSteps` walks `forkSteps`, the chunk part is `chunkSumTable` (the loop `chunkLoop`
@@ -51,12 +56,12 @@ theorem forkStateOf_is_table (fm jm sm : Option MState) (cs : List (Option MStat
 
 /-- `Node.getState`: the `if / else if / else if` chain of its fork loop (failed → return
 Failed; neither complete nor disabled → break; not disabled → disabled = false) … -/
-theorem node_getState_loop_matches_source : Gen.nodeGetStateLoop = nodeLoopNames := by decide
+theorem node_getState_loop_matches_source : Gen.nodeGetStateLoop_extracted = true ∧ Gen.nodeGetStateLoop = nodeLoopNames := by decide
 
 /-- … and what follows the loop (complete&&disabled → Disabled, complete → Complete, an
 unfinished prenode → Waiting, else Running); the right-hand side is computed from the
 model's `nodeStateOf` on witnesses. -/
-theorem node_getState_tail_matches_source : Gen.nodeGetStateTail = nodeTailNames := by decide
+theorem node_getState_tail_matches_source : Gen.nodeGetStateTail_extracted = true ∧ Gen.nodeGetStateTail = nodeTailNames := by decide
 
 /-- the model's fork loop `scanForks` is the interpretation of that chain
 (`scanTable`: first arm of `nodeLoopTable` whose condition holds) -/
@@ -64,7 +69,7 @@ theorem scanForks_is_table (l : List FState) (d : Bool) : scanForks l d = scanTa
   scanForks_eq_table l d
 
 /-- `Fork.stepStage`: the chain `if state == X { state = self.doY() }` in source order -/
-theorem stepStage_chain_matches_source : Gen.stepStageChain = stageChainNames := by decide
+theorem stepStage_chain_matches_source : Gen.stepStageChain_extracted = true ∧ Gen.stepStageChain = stageChainNames := by decide
 
 /-- every scheduler action the model allows happens in a fork state to which that chain
 assigns this very action (`stageAction` = first arm of the chain for the state):
@@ -114,7 +119,7 @@ theorem launch_after_prenodes {g : List NodeInfo} {s : State} {o : Obj} (hr : Re
   have hd := reach_preInv hr hph o.n hc p hp
   exact ⟨hd, fun f hf => forkState_done.mpr (nodeDone_iff.mp hd f hf)⟩
 
-/-- `phase_order` (chunks after split): a chunk job is submitted only when the
+/-- DEFINITIONAL UNFOLDING (documentation of the model / of a guard, not a guarantee). `phase_order` (chunks after split): a chunk job is submitted only when the
 split object of its fork is complete — in mrp's view AND on disk, with no
 error/assert marker. -/
 theorem launch_chunk_after_split {g : List NodeInfo} {s : State} {n f i : Nat} (hr : Reach g s)
@@ -126,7 +131,7 @@ theorem launch_chunk_after_split {g : List NodeInfo} {s : State} {n f i : Nat} (
   have h := hl.2.1.2
   exact ⟨h, (reach_objsInv hr _).sub _ (metaState_complete h).2.2⟩
 
-/-- `phase_order` (join after chunks): the join job is submitted only when
+/-- DEFINITIONAL UNFOLDING (documentation of the model / of a guard, not a guarantee). `phase_order` (join after chunks): the join job is submitted only when
 every chunk object of the fork is complete (in mrp's view and on disk); with
 zero chunks, only when the split is complete. -/
 theorem launch_join_after_chunks {g : List NodeInfo} {s : State} {n f : Nat} (hr : Reach g s)
@@ -146,7 +151,7 @@ theorem launch_join_after_chunks {g : List NodeInfo} {s : State} {n f : Nat} (hr
     exact ⟨this, (reach_objsInv hr _).sub _ (metaState_complete this).2.2⟩
   · intro hz; simpa [hz] using h
 
-/-- `_complete` files come into existence only through a job that ended
+/-- DEFINITIONAL UNFOLDING (documentation of the model / of a guard, not a guarantee). `_complete` files come into existence only through a job that ended
 `complete`, or through mrp's own stubs/`doComplete` under their guards: for a
 split object only in a non-splitting stage whose fork was `ready`; for a join
 object only in a non-splitting stage whose chunks are all complete; for the
@@ -223,6 +228,31 @@ def h1 : List Ev :=
 example : (match replay (init g1) h1 with
     | .ok s => !enabled s (.launch ⟨0, 0, .join⟩) &&
         enabled (apply s (.R ⟨0, 0, .chunk 0⟩ .complete)) (.launch ⟨0, 0, .join⟩)
+    | .error _ => false) = true := by decide
+
+/-! A larger example: producer stage 0, a PIPELINE node 1 that returns it, and a splitting consumer 2
+of the pipeline's output whose second fork is added at RUN TIME (after its map source is known).
+While the pipeline is unfinished the consumer cannot be told to run and nothing of it can be
+submitted; afterwards both forks can submit their split. -/
+def g3p : List NodeInfo :=
+  [{ kind := .stage, pre := [] }, { kind := .pipeline, pre := [0] }, { kind := .splitstage, pre := [1] }]
+
+def h3p : List Ev :=
+  [.fork 0 0, .fork 1 0, .fork 2 0, .nodestate 0 .running, .refresh,
+   .W ⟨0, 0, .split⟩ .complete, .mkchunks 0 0 1, .launch ⟨0, 0, .chunk 0⟩,
+   .joblog ⟨0, 0, .chunk 0⟩, .jobend ⟨0, 0, .chunk 0⟩ .complete, .R ⟨0, 0, .chunk 0⟩ .complete,
+   .W ⟨0, 0, .join⟩ .complete, .W ⟨0, 0, .fork⟩ .complete, .nodestate 0 .complete,
+   .nodestate 1 .running]
+
+example : (match replay (init g3p) h3p with
+    | .ok s => nodeDone s 0 && !nodeDone s 1 && !enabled s (.nodestate 2 .running) &&
+               !enabled s (.launch ⟨2, 0, .split⟩)
+    | .error _ => false) = true := by decide
+
+example : (match replay (init g3p)
+      (h3p ++ [.W ⟨1, 0, .fork⟩ .complete, .nodestate 1 .complete, .fork 2 1, .nodestate 2 .running]) with
+    | .ok s => nodeDone s 1 && s.forksOf 2 == [0, 1] && enabled s (.launch ⟨2, 0, .split⟩) &&
+               enabled s (.launch ⟨2, 1, .split⟩) && !enabled s (.fork 2 2)
     | .error _ => false) = true := by decide
 
 end Props.C02
